@@ -371,8 +371,8 @@ pub fn run(args: &Args) {
 	let mut s = Session::new(
 		"C06",
 		&args.out,
-		"From Coq Require Import ZArith List. Import ListNotations. Open Scope Z_scope.\nFrom KV Require Import Base.Corr C06.Run.",
-		"run",
+		"From Coq Require Import ZArith List. Import ListNotations. Open Scope Z_scope.\nFrom KV Require Import Base.Corr C06.Run C06.RunOwners.\nFrom KV Require C17.Run.",
+		"arun",
 		150,
 		"one case = one history of set()/update() calls on a real kira::Parameter (f64 or Decibels) with generated targets (fixed / modulator-mapped), durations (0, sub-update, dyadic, arbitrary), easings, start times (immediate / delayed / clock present, paused, absent) and update partitions; distinct = distinct history text; non-trivial = contains at least one set and two updates",
 	);
@@ -392,7 +392,7 @@ pub fn run(args: &Args) {
 			let d = Duration::from_secs_f64(x);
 			vec![d.as_nanos() as i128, obs64(d.as_secs_f64())]
 		});
-		s.case("duration", format!("CDur {}", f64_bits_z(x)), &encode_outcome(&o), Some(format!("dur:{}", x.to_bits())));
+		s.case("duration", format!("ABase (CDur {})", f64_bits_z(x)), &encode_outcome(&o), Some(format!("dur:{}", x.to_bits())));
 	}
 
 	// ---- histories
@@ -403,9 +403,9 @@ pub fn run(args: &Args) {
 		let use32 = i % 4 == 3;
 		let (obs, tab, vals) = if use32 { run_history::<Decibels>(&ids, &init, default, &ops) } else { run_history::<f64>(&ids, &init, default, &ops) };
 		let term = if use32 {
-			format!("CP32 {} {} [{}] {}", tgt_term::<Decibels>(&init), Decibels::bits_str(default), ops.iter().map(|o| op_term::<Decibels>(o)).collect::<Vec<_>>().join("; "), tab_term(&tab))
+			format!("ABase (CP32 {} {} [{}] {})", tgt_term::<Decibels>(&init), Decibels::bits_str(default), ops.iter().map(|o| op_term::<Decibels>(o)).collect::<Vec<_>>().join("; "), tab_term(&tab))
 		} else {
-			format!("CP64 {} {} [{}] {}", tgt_term::<f64>(&init), f64::bits_str(default), ops.iter().map(|o| op_term::<f64>(o)).collect::<Vec<_>>().join("; "), tab_term(&tab))
+			format!("ABase (CP64 {} {} [{}] {})", tgt_term::<f64>(&init), f64::bits_str(default), ops.iter().map(|o| op_term::<f64>(o)).collect::<Vec<_>>().join("; "), tab_term(&tab))
 		};
 		let key = format!("{:x}", {
 			let mut h = 1469598103934665603u64;
@@ -526,5 +526,677 @@ pub fn run(args: &Args) {
 			s.eval_only("zero_duration_scenario");
 		}
 	}
+	owners(&mut s, &mut rng, args);
 	s.finish();
+}
+
+// =====================================================================================================
+// Parameters THROUGH THEIR OWNERS on a real AudioManager (custom backend): sounds, tracks, modulators,
+// clocks, listeners.  Model side: coq/theories/C06/{ModelOwners,OwnersSound,RunOwners}.v
+// =====================================================================================================
+use crate::backend::{manager, Mgr};
+use kira::clock::{ClockHandle, ClockSpeed};
+use kira::effect::{Effect, EffectBuilder};
+use kira::info::Info;
+use kira::modulator::lfo::{LfoBuilder, LfoHandle, Waveform};
+use kira::modulator::tweener::{TweenerBuilder, TweenerHandle};
+use kira::sound::static_sound::{StaticSoundData, StaticSoundHandle, StaticSoundSettings};
+use kira::sound::streaming::{Decoder, StreamingSoundData, StreamingSoundHandle, StreamingSoundSettings};
+use kira::sound::PlaybackState;
+use kira::track::{MainTrackBuilder, SendTrackBuilder, SpatialTrackBuilder, TrackBuilder, TrackPlaybackState};
+use kira::{Capacities, Frame, Panning, PlaybackRate};
+use std::sync::atomic::{AtomicU64, Ordering};
+use std::sync::{Arc, Mutex};
+
+const OSR: u32 = 1024; // dt = 2^-10 s, exactly representable
+const ODT: f64 = 1.0 / OSR as f64;
+const FRAME_NS: f64 = 976_562.5;
+
+#[derive(Clone, Debug)]
+struct OTw {
+	start: Start,
+	dur_ns: u64,
+	easing: Easing,
+}
+fn tw0() -> OTw {
+	OTw { start: Start::Imm, dur_ns: 0, easing: Easing::Linear }
+}
+fn ostart_term(s: &Start) -> String {
+	match s {
+		Start::Imm => "OImm".into(),
+		Start::Del(ns) => format!("(ODel {})", ns),
+		Start::Clk { clock, ticks, fr } => format!("(OClk {} {} {})", clock, ticks, f64_bits_z(*fr)),
+	}
+}
+fn otw_term(t: &OTw) -> String {
+	let (ek, ep) = easing_code(t.easing);
+	format!("({}, {}, {}, {})", ostart_term(&t.start), t.dur_ns, ek, z(ep))
+}
+fn mk_ostart(clocks: &[kira::clock::ClockId], s: &Start) -> StartTime {
+	match s {
+		Start::Imm => StartTime::Immediate,
+		Start::Del(ns) => StartTime::Delayed(Duration::from_nanos(*ns)),
+		Start::Clk { clock, ticks, fr } => StartTime::ClockTime(ClockTime { clock: clocks[*clock], ticks: *ticks, fraction: *fr }),
+	}
+}
+fn mk_otween(clocks: &[kira::clock::ClockId], t: &OTw) -> Tween {
+	Tween { start_time: mk_ostart(clocks, &t.start), duration: Duration::from_nanos(t.dur_ns), easing: t.easing }
+}
+type ClockSnap = Vec<(bool, bool, u64, f64)>;
+fn clocks_term(c: &ClockSnap) -> String {
+	format!("[{}]", c.iter().map(|(p, t, k, f)| format!("({}, {}, {}, {})", *p as u8, *t as u8, k, f64_bits_z(*f))).collect::<Vec<_>>().join("; "))
+}
+fn chunks_term(ch: &[(usize, ClockSnap)]) -> String {
+	format!("[{}]", ch.iter().map(|(l, c)| format!("({}, {})", l, clocks_term(c))).collect::<Vec<_>>().join("; "))
+}
+fn tab32_term(tab: &[(u32, u32, u32)]) -> String {
+	let mut t = tab.to_vec();
+	t.sort();
+	t.dedup();
+	format!("[{}]", t.iter().map(|(a, b, c)| format!("({}, {}, {})", a, b, c)).collect::<Vec<_>>().join("; "))
+}
+fn hash_key(term: &str) -> String {
+	let mut h = 1469598103934665603u64;
+	for b in term.bytes() {
+		h = (h ^ b as u64).wrapping_mul(1099511628211);
+	}
+	format!("{:x}", h)
+}
+
+/// ease(x) through the public `Mapping` (input and output range 0..1)
+fn ease_pub(e: Easing, x: f64) -> f64 {
+	Mapping { input_range: (0.0, 1.0), output_range: (0.0f64, 1.0f64), easing: e }.map(x)
+}
+
+/// The property, evaluated independently of who owns the parameter: the value is the tween law of the time
+/// PROCESSED since the command (one step of `dt * len` per processed chunk, whatever the owner's state is).
+#[derive(Clone, Debug)]
+struct Law {
+	cur: f64,
+	tw: Option<LawTw>,
+	/// processed time since the command in force was taken (for messages)
+	since_cmd: f64,
+	target_exact: Option<f64>,
+}
+#[derive(Clone, Debug)]
+struct LawTw {
+	v0: f64,
+	target: f64,
+	start: Start,
+	dur: f64,
+	dur_ns: u64,
+	easing: Easing,
+	elapsed: f64,
+}
+impl Law {
+	fn new(v: f64) -> Law {
+		Law { cur: v, tw: None, since_cmd: 0.0, target_exact: None }
+	}
+	fn value(&self) -> f64 {
+		match &self.tw {
+			None => self.cur,
+			Some(t) => {
+				if t.dur_ns == 0 || t.elapsed == 0.0 {
+					t.v0
+				} else {
+					t.v0 + (t.target - t.v0) * ease_pub(t.easing, t.elapsed / t.dur)
+				}
+			}
+		}
+	}
+	fn set(&mut self, target: f64, tw: &OTw) {
+		let v0 = self.value();
+		self.cur = v0;
+		self.since_cmd = 0.0;
+		self.target_exact = None;
+		self.tw = Some(LawTw { v0, target, start: tw.start.clone(), dur: Duration::from_nanos(tw.dur_ns).as_secs_f64(), dur_ns: tw.dur_ns, easing: tw.easing, elapsed: 0.0 });
+	}
+	/// one processed chunk of `dtc` seconds, with the clocks as they were during it
+	fn advance(&mut self, dtc: f64, clocks: &ClockSnap) {
+		self.since_cmd += dtc;
+		let mut done = false;
+		if let Some(t) = &mut self.tw {
+			let counts = match &mut t.start {
+				Start::Imm => true,
+				Start::Del(rem) => {
+					if *rem == 0 {
+						true
+					} else {
+						*rem = rem.saturating_sub(Duration::from_secs_f64(dtc).as_nanos() as u64);
+						false
+					}
+				}
+				Start::Clk { clock, ticks, fr } => match clocks.get(*clock) {
+					Some((true, ticking, tk, f)) => *ticking && (*tk > *ticks || (*tk == *ticks && *f >= *fr)),
+					_ => false,
+				},
+			};
+			if counts {
+				t.elapsed += dtc;
+				if t.elapsed >= t.dur {
+					done = true;
+				}
+			}
+		}
+		if done {
+			let t = self.tw.take().unwrap();
+			self.cur = t.target;
+			self.target_exact = Some(t.target);
+		}
+	}
+	fn describe(&self) -> String {
+		match &self.tw {
+			None => format!("at rest on {:?} ({} s processed since the command)", self.cur, self.since_cmd),
+			Some(t) => format!("{:?} -> {:?} over {} s ({:?}, start {:?}), {} s of it elapsed, {} s processed since the command", t.v0, t.target, t.dur, t.easing, t.start, t.elapsed, self.since_cmd),
+		}
+	}
+}
+
+fn db_amp(db: f64) -> f64 {
+	if db == 0.0 {
+		1.0
+	} else if db <= -60.0 {
+		0.0
+	} else {
+		10f64.powf(db / 20.0)
+	}
+}
+
+// ---- a probe effect that logs every processed chunk: its length and the clocks as the mixer saw them
+type ChunkLog = Arc<Mutex<Vec<(usize, ClockSnap)>>>;
+type ClockIds = Arc<Mutex<Vec<kira::clock::ClockId>>>;
+struct ChunkProbe {
+	clocks: ClockIds,
+	log: ChunkLog,
+}
+impl Effect for ChunkProbe {
+	fn process(&mut self, input: &mut [Frame], _dt: f64, info: &Info) {
+		let snap = self
+			.clocks
+			.lock()
+			.unwrap()
+			.iter()
+			.map(|id| match info.clock_info(*id) {
+				Some(c) => (true, c.ticking, c.time.ticks, c.time.fraction),
+				None => (false, false, 0, 0.0),
+			})
+			.collect();
+		self.log.lock().unwrap().push((input.len(), snap));
+	}
+}
+struct ChunkProbeBuilder(ClockIds, ChunkLog);
+impl EffectBuilder for ChunkProbeBuilder {
+	type Handle = ();
+	fn build(self) -> (Box<dyn Effect>, ()) {
+		(Box::new(ChunkProbe { clocks: self.0, log: self.1 }), ())
+	}
+}
+
+// ---- an endless constant-amplitude stream
+struct DcDecoder {
+	amp: f32,
+	calls: Arc<AtomicU64>,
+}
+const DC_PACKET: usize = 4096;
+impl Decoder for DcDecoder {
+	type Error = i128;
+	fn sample_rate(&self) -> u32 {
+		OSR
+	}
+	fn num_frames(&self) -> usize {
+		1 << 24
+	}
+	fn decode(&mut self) -> Result<Vec<Frame>, i128> {
+		self.calls.fetch_add(1, Ordering::SeqCst);
+		Ok(vec![Frame::from_mono(self.amp); DC_PACKET])
+	}
+	fn seek(&mut self, _index: usize) -> Result<usize, i128> {
+		Ok(0)
+	}
+}
+
+fn state_code(s: PlaybackState) -> i128 {
+	match s {
+		PlaybackState::Playing => 0,
+		PlaybackState::Pausing => 1,
+		PlaybackState::Paused => 2,
+		PlaybackState::WaitingToResume => 3,
+		PlaybackState::Resuming => 4,
+		PlaybackState::Stopping => 5,
+		PlaybackState::Stopped => 6,
+	}
+}
+
+#[derive(Clone, Debug)]
+enum SCmd {
+	Vol(f32, OTw),
+	Rate(f64, OTw),
+	Pan(f32, OTw),
+	Pause(OTw),
+	Resume(Start, OTw),
+}
+#[derive(Clone, Debug)]
+struct SCb {
+	cmds: Vec<SCmd>,
+	frames: usize,
+	/// repeat this callback (without its commands) until something is heard (the sound came back by itself)
+	until_audible: bool,
+}
+#[derive(Clone, Debug)]
+struct SndScen {
+	streaming: bool,
+	ibs: usize,
+	src: f32,
+	vol0: f32,
+	rate0: f64,
+	pan0: f32,
+	st: Start,
+	mode: &'static str,
+	cbs: Vec<SCb>,
+}
+enum SndH {
+	St(StaticSoundHandle),
+	Sm(StreamingSoundHandle<i128>),
+}
+impl SndH {
+	fn apply(&mut self, clocks: &[kira::clock::ClockId], c: &SCmd) {
+		match (self, c) {
+			(SndH::St(h), SCmd::Vol(v, t)) => h.set_volume(Decibels(*v), mk_otween(clocks, t)),
+			(SndH::Sm(h), SCmd::Vol(v, t)) => h.set_volume(Decibels(*v), mk_otween(clocks, t)),
+			(SndH::St(h), SCmd::Rate(v, t)) => h.set_playback_rate(PlaybackRate(*v), mk_otween(clocks, t)),
+			(SndH::Sm(h), SCmd::Rate(v, t)) => h.set_playback_rate(PlaybackRate(*v), mk_otween(clocks, t)),
+			(SndH::St(h), SCmd::Pan(v, t)) => h.set_panning(Panning(*v), mk_otween(clocks, t)),
+			(SndH::Sm(h), SCmd::Pan(v, t)) => h.set_panning(Panning(*v), mk_otween(clocks, t)),
+			(SndH::St(h), SCmd::Pause(t)) => h.pause(mk_otween(clocks, t)),
+			(SndH::Sm(h), SCmd::Pause(t)) => h.pause(mk_otween(clocks, t)),
+			(SndH::St(h), SCmd::Resume(st, t)) => h.resume_at(mk_ostart(clocks, st), mk_otween(clocks, t)),
+			(SndH::Sm(h), SCmd::Resume(st, t)) => h.resume_at(mk_ostart(clocks, st), mk_otween(clocks, t)),
+		}
+	}
+	fn state(&self) -> PlaybackState {
+		match self {
+			SndH::St(h) => h.state(),
+			SndH::Sm(h) => h.state(),
+		}
+	}
+	fn position(&self) -> f64 {
+		match self {
+			SndH::St(h) => h.position(),
+			SndH::Sm(h) => h.position(),
+		}
+	}
+}
+fn scmd_term(c: &SCmd) -> String {
+	match c {
+		SCmd::Vol(v, t) => format!("CVol {} {}", f32_bits_z(*v), otw_term(t)),
+		SCmd::Rate(v, t) => format!("CRate {} {}", f64_bits_z(*v), otw_term(t)),
+		SCmd::Pan(v, t) => format!("CPan {} {}", f32_bits_z(*v), otw_term(t)),
+		SCmd::Pause(t) => format!("CPause {}", otw_term(t)),
+		SCmd::Resume(st, t) => format!("CResume {} {}", ostart_term(st), otw_term(t)),
+	}
+}
+
+struct SndCbTrace {
+	state: PlaybackState,
+	pos: f64,
+	chunks: Vec<(usize, ClockSnap)>,
+	out: Vec<f32>, // interleaved stereo
+}
+struct SndTrace {
+	/// the callbacks as executed (`until_audible` expanded)
+	exec: Vec<SCb>,
+	cbs: Vec<SndCbTrace>,
+	tab: Vec<(u32, u32, u32)>,
+	panicked: Option<i128>,
+}
+const CLOCK_TPS: f64 = 64.0; // one tick every 16 frames at 1024 Hz
+
+fn dc_frames() -> Arc<[Frame]> {
+	static FRAMES: std::sync::OnceLock<Arc<[Frame]>> = std::sync::OnceLock::new();
+	FRAMES.get_or_init(|| Arc::from(vec![Frame::from_mono(0.5); 1 << 16])).clone()
+}
+
+fn run_snd(sc: &SndScen) -> SndTrace {
+	let _ = kira::verif::take_powf32_log();
+	let r = catch(|| {
+		let log: ChunkLog = Arc::new(Mutex::new(vec![]));
+		let ids: ClockIds = Arc::new(Mutex::new(vec![]));
+		let mut mgr: Mgr = manager(OSR, sc.ibs, Capacities::default(), MainTrackBuilder::new().with_effect(ChunkProbeBuilder(ids.clone(), log.clone())));
+		let mut clock: ClockHandle = mgr.add_clock(ClockSpeed::TicksPerSecond(CLOCK_TPS)).unwrap();
+		clock.start();
+		ids.lock().unwrap().push(clock.id());
+		let cids = vec![clock.id()];
+		let mut h = if sc.streaming {
+			let calls = Arc::new(AtomicU64::new(0));
+			let settings = StreamingSoundSettings::new().volume(Decibels(sc.vol0)).playback_rate(PlaybackRate(sc.rate0)).panning(Panning(sc.pan0)).start_time(mk_ostart(&cids, &sc.st));
+			let data = StreamingSoundData::from_decoder(DcDecoder { amp: sc.src, calls: calls.clone() }).with_settings(settings);
+			let h = mgr.play(data).unwrap();
+			// the decoder thread keeps ahead: a second `decode` call means the first packet (4096 frames) is in the ring
+			let t0 = std::time::Instant::now();
+			while calls.load(Ordering::SeqCst) < 2 && t0.elapsed() < Duration::from_secs(20) {
+				std::thread::sleep(Duration::from_micros(200));
+			}
+			assert!(calls.load(Ordering::SeqCst) >= 2, "decoder thread did not start");
+			SndH::Sm(h)
+		} else {
+			let settings = StaticSoundSettings::new().volume(Decibels(sc.vol0)).playback_rate(PlaybackRate(sc.rate0)).panning(Panning(sc.pan0)).start_time(mk_ostart(&cids, &sc.st));
+			let mut frames = dc_frames();
+			if sc.src != 0.5 {
+				frames = Arc::from(vec![Frame::from_mono(sc.src); 1 << 14]);
+			}
+			SndH::St(mgr.play(StaticSoundData { sample_rate: OSR, frames, settings, slice: None }).unwrap())
+		};
+		let mut cbs = vec![];
+		let mut exec = vec![];
+		for cb in &sc.cbs {
+			let mut rep = 0;
+			loop {
+				let cmds = if rep == 0 { cb.cmds.clone() } else { vec![] };
+				for c in &cmds {
+					h.apply(&cids, c);
+				}
+				let out = mgr.backend_mut().callback(cb.frames, 2);
+				let chunks = std::mem::take(&mut *log.lock().unwrap());
+				let heard = out.iter().any(|x| *x != 0.0);
+				cbs.push(SndCbTrace { state: h.state(), pos: h.position(), chunks, out });
+				exec.push(SCb { cmds, frames: cb.frames, until_audible: false });
+				rep += 1;
+				if !cb.until_audible || heard || rep >= 60 {
+					break;
+				}
+			}
+		}
+		(exec, cbs)
+	});
+	let tab = kira::verif::take_powf32_log();
+	match r {
+		Outcome::Ok((exec, cbs)) => SndTrace { exec, cbs, tab, panicked: None },
+		Outcome::Panic(c) => SndTrace { exec: vec![], cbs: vec![], tab, panicked: Some(1000 + c) },
+		Outcome::Hang => SndTrace { exec: vec![], cbs: vec![], tab, panicked: Some(2000) },
+	}
+}
+
+fn snd_term(sc: &SndScen, tr: &SndTrace) -> String {
+	let cbs = tr
+		.exec
+		.iter()
+		.zip(tr.cbs.iter())
+		.map(|(cb, t)| format!("SCb [{}] {}", cb.cmds.iter().map(scmd_term).collect::<Vec<_>>().join("; "), chunks_term(&t.chunks)))
+		.collect::<Vec<_>>()
+		.join("; ");
+	format!(
+		"AOwn (CSnd {} {} {} {} {} {} {} [{}] {})",
+		sc.streaming as u8,
+		OSR,
+		f32_bits_z(sc.src),
+		f32_bits_z(sc.vol0),
+		f64_bits_z(sc.rate0),
+		f32_bits_z(sc.pan0),
+		ostart_term(&sc.st),
+		cbs,
+		tab32_term(&tr.tab)
+	)
+}
+fn snd_obs(tr: &SndTrace) -> Vec<i128> {
+	if let Some(c) = tr.panicked {
+		return vec![c];
+	}
+	let mut o = vec![];
+	for cb in &tr.cbs {
+		o.push(state_code(cb.state));
+		o.push(obs64(cb.pos));
+		o.extend(cb.out.iter().map(|x| obs32(*x)));
+	}
+	o
+}
+
+/// what a chunk-end frame must be when the fade is at unity
+fn expected_lr(src: f64, vol_db: f64, pan: f64) -> (f64, f64) {
+	let a = src * db_amp(vol_db as f32 as f64);
+	let (l, r) = if pan == 0.0 {
+		(a, a)
+	} else {
+		let p = pan.clamp(-1.0, 1.0);
+		let m = (p + 1.0) * 0.5;
+		(a * (1.0 - m).sqrt() * std::f64::consts::SQRT_2, a * m.sqrt() * std::f64::consts::SQRT_2)
+	};
+	(l.clamp(-1.0, 1.0), r.clamp(-1.0, 1.0))
+}
+
+/// the monitors of one sound scenario; returns the failures (what)
+fn snd_monitor(sc: &SndScen, tr: &SndTrace, checks: &mut (u64, u64, u64)) -> Vec<String> {
+	let mut fails = vec![];
+	let mut was_silent = false;
+	let mut vol = Law::new(sc.vol0 as f64);
+	let mut rate = Law::new(sc.rate0);
+	let mut pan = Law::new(sc.pan0 as f64);
+	let mut state_before = PlaybackState::Playing;
+	let mut prev_pos: Option<(f64, Option<f64>)> = None; // position published at the start of the previous callback, advance expected during it
+	for (k, (cb, t)) in tr.exec.iter().zip(tr.cbs.iter()).enumerate() {
+		let mut state_cmd = false;
+		let mut zero_resume = false;
+		for c in &cb.cmds {
+			match c {
+				SCmd::Vol(v, tw) => vol.set(*v as f64, tw),
+				SCmd::Rate(v, tw) => rate.set(*v, tw),
+				SCmd::Pan(v, tw) => pan.set(*v as f64, tw),
+				SCmd::Pause(_) => state_cmd = true,
+				SCmd::Resume(st, tw) => {
+					state_cmd = true;
+					zero_resume = matches!(st, Start::Imm) && matches!(tw.start, Start::Imm) && tw.dur_ns == 0 && state_before == PlaybackState::Paused && !cb.cmds.iter().any(|c| matches!(c, SCmd::Pause(_)));
+				}
+			}
+		}
+		// position published at the start of this callback: the advance made during the previous one
+		if let Some((p0, Some(want))) = prev_pos {
+			checks.2 += 1;
+			let got = (t.pos - p0) * OSR as f64;
+			let tol = if sc.streaming { 1e-6 * (1.0 + want.abs()) } else { 1.0 + 1e-6 * want.abs() };
+			if (got - want).abs() > tol {
+				fails.push(format!(
+					"callback {}: the position advanced by {got} source frames, but the playback rate following its tween law ({}) gives {want}",
+					k - 1,
+					rate.describe()
+				));
+			}
+		}
+		let eligible_cb = (state_before == PlaybackState::Playing && !state_cmd) || zero_resume;
+		let mut off = 0usize;
+		let mut advance = 0.0f64;
+		// Before the first source frame has been consumed the interpolation window still holds the silent frame that
+		// precedes the sound (resampler.rs / decode_scheduler.rs pre-seed), so at a fractional position the output is
+		// not the source amplitude: nothing to do with tweens, not judged here.
+		let mut consumed = t.pos * OSR as f64; // published at the start of this callback
+		let mut all_audible = eligible_cb;
+		for (len, clocks) in &t.chunks {
+			let rate_prev = rate.value();
+			let dtc = ODT * *len as f64;
+			vol.advance(dtc, clocks);
+			rate.advance(dtc, clocks);
+			pan.advance(dtc, clocks);
+			let frames = &t.out[off * 2..(off + len) * 2];
+			off += len;
+			let silent = frames.iter().all(|x| *x == 0.0);
+			if silent {
+				all_audible = false;
+				was_silent = true;
+			}
+			// per-frame rate: interpolated from the previous chunk's final value
+			let rc = rate.value();
+			let mut consumed_before_last = consumed;
+			for i in 0..*len {
+				let a = (i + 1) as f64 / *len as f64;
+				let step = (rate_prev + (rc - rate_prev) * a).abs();
+				advance += step;
+				if !silent {
+					if i + 1 == *len {
+						consumed_before_last = consumed;
+					}
+					consumed += step;
+				}
+			}
+			if eligible_cb && !silent && consumed_before_last >= 1.5 {
+				checks.0 += 1;
+				if was_silent {
+					checks.1 += 1;
+				}
+				let (l, r) = (frames[(len - 1) * 2] as f64, frames[(len - 1) * 2 + 1] as f64);
+				let (wl, wr) = expected_lr(sc.src as f64, vol.value(), pan.value());
+				let tol = |w: f64| 2e-3 + 1e-3 * w.abs();
+				if (l - wl).abs() > tol(wl) || (r - wr).abs() > tol(wr) {
+					let e2 = l * l + r * r;
+					let a_obs = (e2 / 2.0).sqrt() / sc.src as f64;
+					let pan_obs = if e2 > 0.0 { (r * r - l * l) / e2 } else { 0.0 };
+					fails.push(format!(
+						"callback {k}, chunk ending at frame {off}: last frame is ({l:?}, {r:?}) = gain {:.3} dB, balance {:.4}; the tween laws of the processed time give ({wl:?}, {wr:?}) = volume {:.3} dB [{}], panning {:.4} [{}]",
+						20.0 * a_obs.log10(),
+						pan_obs,
+						vol.value(),
+						vol.describe(),
+						pan.value(),
+						pan.describe()
+					));
+				}
+			}
+		}
+		prev_pos = Some((t.pos, if all_audible && eligible_cb && !zero_resume { Some(advance) } else { None }));
+		state_before = t.state;
+	}
+	fails
+}
+
+fn gen_otw(r: &mut Rng, allow_clock: bool) -> OTw {
+	let start = match r.below(10) {
+		0 | 1 => Start::Del((r.below(70) + 4) * 976_562 + r.below(2) * 500),
+		2 if allow_clock => Start::Clk { clock: 0, ticks: r.below(7) + 1, fr: if r.chance(1, 2) { 0.0 } else { 0.5 } },
+		_ => Start::Imm,
+	};
+	let dur_ns = match r.below(10) {
+		0 => 0,
+		1 => r.below(900_000) + 1,
+		2 => (r.below(12) + 2) * 7_812_500, // k * 8 frames exactly
+		_ => (r.below(150) + 16) * 976_562 + r.below(1000),
+	};
+	let easing = match r.below(6) {
+		0 => Easing::InPowi(r.range(2, 3) as i32),
+		1 => Easing::OutPowi(r.range(2, 3) as i32),
+		2 => Easing::InOutPowi(2),
+		_ => Easing::Linear,
+	};
+	OTw { start, dur_ns, easing }
+}
+fn gen_param_cmds(r: &mut Rng, force: bool) -> Vec<SCmd> {
+	let mut v = vec![];
+	let pick = if force { r.below(3) } else { 99 };
+	if pick == 0 || r.chance(1, 3) {
+		v.push(SCmd::Vol(*r.pick(&[0.0, -3.0, -6.0, -10.0, -20.0, -12.34, -40.0, 2.5]), gen_otw(r, true)));
+	}
+	if pick == 1 || r.chance(1, 4) {
+		v.push(SCmd::Rate(*r.pick(&[0.5, 1.0, 1.5, 2.0, 3.0, 0.75, 1.1]), gen_otw(r, true)));
+	}
+	if pick == 2 || r.chance(1, 4) {
+		v.push(SCmd::Pan(*r.pick(&[-1.0, -0.5, 0.0, 0.3, 0.75, 1.0]), gen_otw(r, true)));
+	}
+	v
+}
+fn gen_frames(r: &mut Rng, ibs: usize, max_mul: usize) -> usize {
+	match r.below(8) {
+		0 => 1,
+		1 => ibs,
+		2 => ibs + 1,
+		3 => r.below(ibs as u64) as usize + 1,
+		_ => r.below((ibs * max_mul) as u64) as usize + 1,
+	}
+}
+fn gen_snd(r: &mut Rng, streaming: bool) -> SndScen {
+	let ibs = *r.pick(&[8usize, 16, 32]);
+	let mode = *r.pick(&["paused", "paused", "pausing", "waiting_delay", "waiting_clock", "start_delay", "start_clock", "playing"]);
+	let st = match mode {
+		"start_delay" => Start::Del((r.below(90) + 30) * 976_562 + 250),
+		"start_clock" => Start::Clk { clock: 0, ticks: r.below(6) + 2, fr: if r.chance(1, 2) { 0.0 } else { 0.5 } },
+		_ => Start::Imm,
+	};
+	let mut cbs = vec![];
+	// lead-in (audible unless the start is pending)
+	let lead = if matches!(st, Start::Imm) { r.below(3) as usize } else { 0 };
+	for _ in 0..lead {
+		cbs.push(SCb { until_audible: false, cmds: if r.chance(1, 3) { gen_param_cmds(r, false) } else { vec![] }, frames: r.below(4) as usize + 1 });
+	}
+	// into the silent state
+	match mode {
+		"paused" => cbs.push(SCb { until_audible: false, cmds: vec![SCmd::Pause(tw0())], frames: gen_frames(r, ibs, 2) }),
+		"pausing" => cbs.push(SCb { until_audible: false, cmds: vec![SCmd::Pause(OTw { start: Start::Imm, dur_ns: (r.below(8) + 8) * 976_562, easing: Easing::Linear })], frames: r.below(3) as usize + 2 }),
+		"waiting_delay" => {
+			cbs.push(SCb { until_audible: false, cmds: vec![SCmd::Pause(tw0())], frames: gen_frames(r, ibs, 1) });
+			cbs.push(SCb { until_audible: false, cmds: vec![SCmd::Resume(Start::Del((r.below(100) + 60) * 976_562), tw0())], frames: gen_frames(r, ibs, 2) });
+		}
+		"waiting_clock" => {
+			cbs.push(SCb { until_audible: false, cmds: vec![SCmd::Pause(tw0())], frames: gen_frames(r, ibs, 1) });
+			cbs.push(SCb { until_audible: false, cmds: vec![SCmd::Resume(Start::Clk { clock: 0, ticks: r.below(5) + 5, fr: 0.0 }, tw0())], frames: gen_frames(r, ibs, 2) });
+		}
+		_ => {}
+	}
+	// the silent stretch: commands to the parameters, time passing in random partitions
+	let n = r.range(3, 6) as usize;
+	let mut issued = false;
+	for k in 0..n {
+		let cmds = if k < 3 && (r.chance(2, 3) || (!issued && k == 2)) {
+			issued = true;
+			gen_param_cmds(r, true)
+		} else {
+			vec![]
+		};
+		let frames = if mode == "playing" { r.below(5) as usize + 1 } else if mode == "pausing" { r.below(6) as usize + 1 } else { gen_frames(r, ibs, 3) };
+		cbs.push(SCb { until_audible: false, cmds, frames });
+	}
+	// out of it
+	match mode {
+		"paused" | "pausing" => cbs.push(SCb { until_audible: false, cmds: vec![SCmd::Resume(Start::Imm, tw0())], frames: r.below(6) as usize + 1 }),
+		// the sound comes back by itself: short callbacks until it is heard
+		"waiting_delay" | "waiting_clock" | "start_delay" | "start_clock" => cbs.push(SCb { until_audible: true, cmds: vec![], frames: r.below(7) as usize + 2 }),
+		_ => {}
+	}
+	for _ in 0..r.range(2, 3) {
+		cbs.push(SCb { until_audible: false, cmds: if r.chance(1, 5) { gen_param_cmds(r, false) } else { vec![] }, frames: r.below(6) as usize + 1 });
+	}
+	SndScen {
+		streaming,
+		ibs,
+		src: 0.5,
+		vol0: *r.pick(&[0.0f32, 0.0, -6.0, -12.5]),
+		rate0: *r.pick(&[1.0f64, 1.0, 0.5, 2.0]),
+		pan0: *r.pick(&[0.0f32, 0.0, -0.5, 0.25]),
+		st,
+		mode,
+		cbs,
+	}
+}
+
+fn owners_sounds(s: &mut Session, rng: &mut Rng, n: u64) {
+	s.flush();
+	s.shard_size = 5; // an owner case costs the model ~0.2 s: many small shards, evaluated in parallel
+	for i in 0..n {
+		let sc = gen_snd(rng, i % 2 == 1);
+		let tr = run_snd(&sc);
+		let term = snd_term(&sc, &tr);
+		s.case(if sc.streaming { "owner_streaming_sound" } else { "owner_static_sound" }, term.clone(), &snd_obs(&tr), Some(hash_key(&term)));
+		s.count(&format!("sound_mode_{}", sc.mode));
+		if tr.panicked.is_some() {
+			s.fail(format!("{sc:?}"), "panic while driving a sound through the manager".into(), None);
+			continue;
+		}
+		let mut checks = (0, 0, 0);
+		let fails = snd_monitor(&sc, &tr, &mut checks);
+		*s.hist.entry("sound_chunk_end_frames_judged".into()).or_insert(0) += checks.0;
+		*s.hist.entry("sound_chunk_end_frames_judged_after_silence".into()).or_insert(0) += checks.1;
+		*s.hist.entry("sound_position_advances_judged".into()).or_insert(0) += checks.2;
+		for f in fails {
+			s.fail(format!("{} sound on the main track, 1024 Hz, internal buffer {}: {:?}", if sc.streaming { "streaming" } else { "static" }, sc.ibs, sc), f, None);
+		}
+	}
+}
+
+fn owners(s: &mut Session, rng: &mut Rng, args: &Args) {
+	let mul = args.budget_mul * if args.thorough { 8 } else { 1 };
+	owners_sounds(s, rng, 120 * mul);
 }
